@@ -69,3 +69,6 @@ def run(repo, res, tier):
     from .. import lexrules as _lx
     _gi = _lx.rule_i2(repo, res)
     _lx.rule_i3(repo, res, _gi)
+    # the lexer's character step: total at the ends of the text, keeps every character that is not grammar white space
+    from .. import lexsim as _ls
+    _ls.rule_comment_kind(repo, res)
